@@ -8,7 +8,7 @@ def sh(cmd, **kw):
     return subprocess.run(cmd, shell=True, stdout=subprocess.PIPE, stderr=subprocess.STDOUT, text=True, **kw)
 seeds = sys.argv[1:] or sorted(glob.glob(ROOT + '/seeded/*/'))
 for d in seeds:
-    d = d.rstrip('/')
+    d = os.path.abspath(d.rstrip('/'))
     meta_path = os.path.join(d, 'meta.json')
     meta = json.load(open(meta_path))
     if os.path.exists(REPO + '/.git'):
@@ -16,7 +16,7 @@ for d in seeds:
     r = sh('git -C %s apply %s/patch.diff' % (REPO, d))
     if r.returncode != 0:
         meta['evaluation'] = {'error': 'patch does not apply: ' + r.stdout[-300:]}
-        json.dump(meta, open(meta_path, 'w'), indent=1); continue
+        json.dump(meta, open(meta_path, 'w'), indent=1); print(os.path.basename(d), 'PATCH DOES NOT APPLY', flush=True); continue
     caught, details = [], {}
     try:
         only = meta.get('check_props') or PROPS
